@@ -15,7 +15,8 @@ RULE = ("policy (L1, family 2): 11 directed defect inputs, then per scenario a f
         "2^256-1; nil optional fields; negative / huge / unparsable decimals; thresholds around the stored maximum) through the real "
         "ValidateBasic + message server; then >= 14 consecutive blocks plus the boundary heights of every configured period, each with "
         "user traffic, every block hook (epochs, mint, dispensation, margin, clp begin/end) under recover(); lines bb/eb = state in, "
-        "state out or panic of the clp hooks (model must reproduce), adm = one-directional acceptance + resulting state, inv/powenv = "
+        "state out or panic of the clp hooks (model must reproduce), lpu = MustUpdateLiquidityProtectionThreshold on a discarded branch, "
+        "adm = one-directional acceptance + resulting state, inv/powenv = "
         "the theorems' invariant / math.Pow assumption evaluated on the implementation's state. "
         "userhist (L1, family 1): adversarial permissionless clp/margin/bank/dispensation/ethbridge messages (amounts 0, 1, 2^64+-1, 2^128, "
         "dust, near pool depths) under policies inside the envelope, all hooks under recover() after every block. "
@@ -48,8 +49,9 @@ UNPROVED = [
     "family 1 as an induction over user histories (hooks_total_userStatement): NOT proved — the permissionless message handlers are not "
     "part of this property's model; proved instead: in every state satisfying the explicit invariants both clp hooks return normally "
     "(hooks_total_user_partial, beginBlock_total, endBlock_total, policy_period_total). Preservation of PmtpInvP by user messages rests on "
-    "code reading (no user message writes PMTP state); `cur <= max` under swaps is modelled by userMove, not proved against "
-    "MustUpdateLiquidityProtectionThreshold; the pool conjuncts of EInvP are C01/C02 invariants not proved here",
+    "code reading (no user message writes PMTP state); LpInv under swaps IS proved for the model of "
+    "MustUpdateLiquidityProtectionThreshold (lp_user_swap_preserves, tied by `lpu` lines); the pool conjuncts of EInvP are C01/C02 "
+    "invariants not proved here",
     "EInvP is not shown to be re-established by the EndBlocker itself (rewards grow pool balances): it is re-assumed per block",
     "hooks outside the model — epochs BeginBlocker -> clp AfterEpochEnd (F16), margin BeginBlocker (F21), dispensation BeginBlocker, "
     "cosmos x/mint BeginBlocker (F19): tested only (chk c10.hook / c10.safe on the real keepers), no theorem",
